@@ -28,8 +28,8 @@ ASSUMPTIONS = [
 BOUNDS = {"quick": {"program_size": 3}, "thorough": {"program_size": 4}}
 CHUNK = 8
 MENU = frozenset({"assign", "declare", "declare-use", "declare-tagged", "declare-attr", "undef-read", "late-read", "if", "if-else",
-                  "for", "try-except", "try-nameerror", "return", "raise"})
-SPECIAL = frozenset({"declare", "declare-use", "declare-tagged", "declare-attr", "undef-read", "late-read"})
+                  "for", "try-except", "try-nameerror", "return", "raise", "none-global-read"})
+SPECIAL = frozenset({"declare", "declare-use", "declare-tagged", "declare-attr", "undef-read", "late-read", "none-global-read"})
 PRELUDE = "from ptera import tag\n"
 
 
